@@ -409,10 +409,22 @@ func (m *Muxer) sender() {
 		}
 	}
 
-	// if we broke out of the loop, consume all packets so tubes can still close
-	for range m.sendQueue {
-	}
-	for range m.prioritySendQueue {
+	// if we broke out of the loop, consume all packets so tubes can still close.
+	// Both queues at once: a tube blocked on the priority queue may hold the
+	// lock that its Close needs, and the send queue is only closed after every
+	// tube has closed
+	sendQueue, prioritySendQueue := m.sendQueue, m.prioritySendQueue
+	for sendQueue != nil || prioritySendQueue != nil {
+		select {
+		case _, open := <-sendQueue:
+			if !open {
+				sendQueue = nil
+			}
+		case _, open := <-prioritySendQueue:
+			if !open {
+				prioritySendQueue = nil
+			}
+		}
 	}
 
 	m.log.WithField("error", err).Debug("muxer sender stopped")
